@@ -2,11 +2,13 @@
 
 Two ts-server instances built from the current tree (1 and 3 partitions per node).  Bounded exhaustive
 enumeration (odometer, no randomness) of
-  data sets   (lib/c08_model.py: 3 series x 4 timestamps x {absent, f+g, f only, g only}, <= 6 points)
+  data sets   (lib/c08_model.py) f/g family: 3 series x 4 timestamps x {absent, f+g, f only, g only}, <= 6 points;
+              typed family: 3 series x 10 timestamps, fields f float, s string, i integer, b boolean, one series of 9-10 rows
   layouts     memory | flushed | flushed + late (out-of-order / row-completing) points | late points flushed too
-  statements  SELECT (f | f,g | agg(f)) FROM m [WHERE ..] [GROUP BY tag | time(w) [fill(..)]] [ORDER BY time DESC] [LIMIT n OFFSET k]
+  statements  f/g:   SELECT (f | f,g | agg(f)) FROM m [WHERE ..] [GROUP BY tag | time(w) [fill(..)]] [ORDER BY time DESC] [LIMIT n OFFSET k]
+              typed: SELECT (s | f,s | s,i,b | * | f,host | b | calls on s, b, i | several calls) with filters on s, i, b
   configs     chunk size n in {1, 2, default} (inner_chunk_size=n, and chunk_size=n when chunked) x chunked {off, on}
-              x chunk_reader_parallel {1, default} x server {1 partition, 3 partitions}
+              (+ n=1 with chunk_size=3 in thorough) x chunk_reader_parallel {1, default} x server {1 partition, 3 partitions}
 Oracle: every answer must be one the reference evaluator (documented InfluxQL semantics evaluated directly over the
 logical contents) allows; a DESC answer is compared reversed; limit/offset on grouped queries is only compared across
 configurations.  Because every configuration, layout and server is compared with the same expected answer, configuration /
@@ -22,13 +24,14 @@ CID = "C08"
 LEVEL = "exploration"
 DB = "c08"
 GROUP_SIZE = {"quick": 3, "thorough": 3}
-DEADLINE = {"quick": 170, "thorough": 1500}   # seconds of query time; expiry => exhaustive:false, exit 0
+DEADLINE = {"quick": 200, "thorough": 2100}   # seconds of query time; expiry => exhaustive:false, exit 0
 NPROC = int(os.environ.get("VERIF_C08_PROCS", "12"))
 KEEP_PER_KIND = int(os.environ.get("VERIF_C08_KEEP", "40"))
 BATCH = 40                                    # statements per HTTP request (each is confirmed singly on mismatch)
-RULE = ("odometer over data sets x layouts x statements of the grammar x (chunk size, chunked, reader parallelism, server); "
-        "one evaluation = one statement answer compared with the reference evaluator; distinct_nontrivial = distinct "
-        "(data set, statement) pairs whose expected (for limit-on-grouped statements: actual) answer is non-empty")
+RULE = ("odometer over data sets (f/g family and typed family) x layouts x statements of the family's grammar x (chunk size, "
+        "chunked, reader parallelism, server); one evaluation = one statement answer compared with the reference evaluator; "
+        "distinct_nontrivial = distinct (data set, statement) pairs whose expected (for limit-on-grouped statements: actual) "
+        "answer is non-empty")
 ASSUMPTIONS = [
     "reference evaluator = InfluxQL 1.x semantics as documented: rows by time; absent field = null, rows whose selected fields are all "
     "null are dropped; a comparison with a null field is false; aggregate row time = lower bound of the time range (epoch 0 if none), "
@@ -36,7 +39,15 @@ ASSUMPTIONS = [
     "default and count() of an empty bucket is 0; fill(previous) leaves leading empty buckets null; groups without any point are absent",
     "lenient where the language is silent: order of series in the answer, order of rows with equal timestamps, which rows of equal "
     "timestamp a LIMIT/OFFSET cut keeps, which of several equal extremes (or equal-time first/last points) a selector returns, floats "
-    "compared with 1e-9 relative tolerance, label of an exclusive lower bound (T or T+1ns)",
+    "compared with 1e-9 relative tolerance, label of an exclusive lower bound (T or T+1ns), count() over no value in a statement "
+    "with several calls and no time buckets (0 or null)",
+    "typed family: strings, booleans and integers are compared exactly (integer sum/min/max/first/last/count are the exact results "
+    "of integer arithmetic, also beyond 2^53; mean of integers is a float); SELECT * returns fields and tags in name order, grouped "
+    "tags left out; a tag next to a field is a column, tags alone give an empty answer; a row is dropped when all selected FIELDS "
+    "are null; only calls the language defines for the type (count/first/last on strings and booleans), fill(0) only on integer "
+    "results, several calls in one statement only without selectors and with the default fill",
+    "server settings that answers must not depend on: 2-row segments (max-rows-per-segment=2), no memtable auto-flush, background "
+    "compaction and out-of-order merge switched off (debug/ctrl allshards=false, repeated after every load)",
     "limit/offset on grouped queries is compared only across configurations/layouts/servers (skipped when the unlimited answer has ties)",
     "visibility barrier after loading (poll until every written value is returned); barrier time-out = tool error",
     "several statements share one HTTP request; every mismatch is re-executed as a single-statement request before it is reported",
@@ -259,10 +270,13 @@ def write(s, lines):
 
 def barrier(s, ds, mst, want, timeout_s=60):
     """Poll until the measurement returns exactly the written number of values of every field (DESIGN.md section 1).
-    want = {field: number of non-null values}."""
+    want = {field: number of non-null values}.  Two independent readings are polled in turn - the rows of
+    `select <fields>` and `select count(<field>), ..` - and either one agreeing with `want` ends the wait, so that a defect in
+    one of the two query paths shows up as a verdict of the enumeration and not as a barrier time-out."""
     t0 = time.time()
-    got = None
+    got = got2 = None
     q = 'select %s from "%s"' % (",".join(ds.fields), mst)
+    q2 = 'select %s from "%s"' % (",".join("count(%s)" % k for k in ds.fields), mst)
     while time.time() - t0 < timeout_s:
         st, js = s.query(q, db=DB)
         got = {k: 0 for k in ds.fields}
@@ -277,8 +291,20 @@ def barrier(s, ds, mst, want, timeout_s=60):
                 got = None
         if got == want:
             return
+        st, js = s.query(q2, db=DB)
+        got2 = {k: 0 for k in ds.fields}
+        if st == 200 and js:
+            try:
+                for x in blackbox.Server.series(js):
+                    for r in (x[3] or []):
+                        for k, v in zip(ds.fields, r[1:]):
+                            got2[k] += v or 0
+            except blackbox.QueryError:
+                got2 = None
+        if got2 == want:
+            return
         time.sleep(0.05)
-    raise blackbox.ToolError("visibility barrier: %s on %s shows %s values, expected %s" % (mst, s.name, got, want))
+    raise blackbox.ToolError("visibility barrier: %s on %s shows %s / counts %s, expected %s" % (mst, s.name, got, got2, want))
 
 
 FAMILIES = ("a", "b", "c")
@@ -347,6 +373,7 @@ K_NULLAGG = "aggregate_wrong_when_null_f_row_passes_filter_on_another_field"
 K_LAST_SEG = "last_reports_time_of_newer_row_of_multi_segment_file"
 K_GLIMIT = "limit_on_grouped_aggregate_changes_bucket_values"
 K_GLIMIT_SEL = "limit_on_tag_and_time_grouped_aggregate_selects_other_rows"
+K_FILL_STR = "fill_previous_forgets_string_of_single_value_chunk"
 
 
 def defect_model_kind(ds, st, layout, ans):
@@ -382,6 +409,9 @@ def defect_model_kind(ds, st, layout, ans):
         return K_NULLAGG if not (late and not M.null_f_row_passes_filter(ds, st)) else K_SPLIT + "+null_f_row_reaches_aggregate"
     if dsel and fits(M.relaxed_desc_selector_expectation(ds, st)):
         return K_DESC_SEL
+    if fprev and selector in ("first", "last") and not st["gbtag"] and M.call_field_type(ds, st) == "string" and \
+            fits(M.relaxed_fill_expectation(ds, st, or_null=True, fill_prev_iteration_order=bool(st["desc"]))):
+        return K_FILL_STR          # a filled cell is the right string or null; every non-empty bucket is right
     if fprev and st["gbtag"] and fits(M.relaxed_fill_expectation(ds, st)):
         return K_FILL_TAGS
     if selector == "last" and not st["w"] and layout != "memory" and fits(M.relaxed_selector_expectation(ds, st, any_row_time=True)):
